@@ -8,7 +8,7 @@ import itertools
 
 from ..checklib import run_generic, generic_replay
 
-NOW = 3
+NOW = 5
 # strategy lists: each strategy = (runtime, {resource name: quantity})
 S = {
     "c1": (2, {"CPU": 1}), "c2": (2, {"CPU": 2}), "g1": (1, {"GPU": 1}),
@@ -65,11 +65,15 @@ def build(case):
     wps = WorkerPools(pools)
     tasks = {}
     names = case.get("names") or ["Ta", "Tb", "Tc", "Td"]
-    for k, (rank, sl) in enumerate(case["tasks"]):
+    for k, spec in enumerate(case["tasks"]):
+        rank, sl = spec[0], spec[1]
+        ran = spec[2] if len(spec) > 2 else 0
         strategies = ExecutionStrategies([
             ExecutionStrategy(res(S[s][1]), 1, EventTime(S[s][0], US))
             for s in STRAT_LISTS[sl]])
-        slowest = max(S[s][0] for s in STRAT_LISTS[sl])
+        # remaining time: a task that already executed `ran` us of its slowest
+        # strategy and was preempted has that much less left
+        slowest = max(S[s][0] for s in STRAT_LISTS[sl]) - ran
         pol = case["policy"]
         # fields chosen so that the policy's priority key equals `rank`
         if pol == "EDF":
@@ -82,6 +86,23 @@ def build(case):
         t = Task(name=names[k], task_graph="G", job=job,
                  deadline=EventTime(deadline, US), release_time=EventTime(release, US))
         t.release(EventTime(release, US))
+        if ran:
+            # execute it for `ran` us on a scratch pool (not part of the cluster handed
+            # to the policy), then preempt it: PREEMPTED tasks are schedulable again
+            from workload import Placement
+            si = max(range(len(STRAT_LISTS[sl])), key=lambda i: S[STRAT_LISTS[sl][i]][0])
+            es = list(strategies)[si]
+            sw = Worker("scratchW", Resources({Resource("CPU"): 4, Resource("GPU"): 4}))
+            sp = WorkerPool("scratch", workers=[sw])
+            t0 = EventTime(NOW - ran, US)
+            t.schedule(t0, Placement.create_task_placement(
+                task=t, placement_time=t0, worker_pool_id=sp.id, execution_strategy=es))
+            assert sp.place_task(t, execution_strategy=es)
+            t.start(t0)
+            assert sp.step(t0, EventTime(ran, US)) == []
+            t.preempt(EventTime(NOW, US))
+            sp.remove_task(EventTime(NOW, US), t)
+            assert t.remaining_time == EventTime(slowest, US), t.remaining_time
         tasks[names[k]] = t
     tg = TaskGraph(name="G", tasks={t: [] for t in tasks.values()})
     wl = Workload.from_task_graphs({"G": tg})
@@ -120,6 +141,9 @@ def judge(case, out, stats):
                 continue
             placed[t.name] = (pool_index[p.worker_pool_id], strat)
     rank = {names[k]: case["tasks"][k][0] for k in range(len(names))}
+    if any(len(c) > 2 and c[2] for c in case["tasks"]):
+        stats["calls_with_a_partially_executed_task"] = \
+            stats.get("calls_with_a_partially_executed_task", 0) + 1
     answered = set(p.task.name for p in pl)
     for n in names:
         if n not in answered:
@@ -203,10 +227,19 @@ def job(item, tier, seed):
 def items(tier):
     it = []
     per_task = [(r, sl) for r in (1, 2, 3) for sl in range(len(STRAT_LISTS))]
+    partial = [(r, sl, ran) for r in (1, 2, 3) for sl in range(len(STRAT_LISTS))
+               for ran in (1, 2)
+               if ran < max(S[s][0] for s in STRAT_LISTS[sl])]
     for pol in POLICIES:
         for ps in range(len(POOLSETS)):
             for nt in (1, 2, 3):
                 for first in per_task:
+                    it.append(("set", nt, first, pol, ps))
+                # the first task was preempted after running 1 or 2 us: its remaining
+                # time (LSF's slack) is no longer its strategy's runtime
+                for first in partial:
+                    if nt == 3 and tier == "quick" and first[2] == 1:
+                        continue
                     it.append(("set", nt, first, pol, ps))
             if tier == "thorough":
                 for first in [(r, sl) for r in (1, 2) for sl in (0, 1, 2, 4, 6)]:
@@ -228,9 +261,10 @@ def main(tier, seed):
         assumptions=["priority key per policy realised through deadline (EDF), release "
                      "time (FIFO), deadline - now - slowest runtime (LSF)",
                      "ties count as accounted (the statement says higher or equal)"],
-        required_stats=("schedule_calls", "calls_with_unplaced", "calls_with_ties"),
+        required_stats=("schedule_calls", "calls_with_unplaced", "calls_with_ties",
+                        "calls_with_a_partially_executed_task"),
         chunk=4, budget_s=280 if tier == "quick" else 3000, confirm_job=confirm_job)
 
 
 def replay(path):
-    return generic_replay("C13", path, confirm_job, extra=("quick", 0))
+    return generic_replay("C13", path, confirm_job, extra=("quick", 0), item_job=job)
